@@ -450,6 +450,78 @@ theorem c18_expressible (pre : List Op) (s : Impl) (op : Op) (h : Impl.init.run 
     · simp [(inv.owned k).2 hok]
     · simp [((inv.owned k).1 _ hok).2]
 
+/-! ### finishing owned guards "at the same time": the order does not matter -/
+
+/-- two specification states that no later observation can tell apart -/
+def SpecEq (a b : Spec) : Prop :=
+  a.now = b.now ∧ a.bStart = b.bStart ∧ a.oStart = b.oStart ∧
+    ∀ ys, total (ys ++ a.events) = total (ys ++ b.events)
+
+theorem total_cons_congr {ea eb : List Ev} (h : ∀ ys, total (ys ++ ea) = total (ys ++ eb)) (e : Ev)
+    (ys : List Ev) : total (ys ++ e :: ea) = total (ys ++ e :: eb) := by
+  have := h (ys ++ [e])
+  simpa using this
+
+theorem SpecEq.step {a b : Spec} (h : SpecEq a b) (op : Op) : SpecEq (a.step op) (b.step op) := by
+  obtain ⟨an, ab, ao, ae⟩ := a
+  obtain ⟨bn, bb, bo, be⟩ := b
+  simp only [SpecEq] at h
+  obtain ⟨rfl, rfl, rfl, h4⟩ := h
+  cases op <;> simp only [Spec.step, Spec.endB, Spec.endO]
+  case advance d => exact ⟨rfl, rfl, rfl, h4⟩
+  case startB => exact ⟨rfl, rfl, rfl, h4⟩
+  case startO k => exact ⟨rfl, rfl, rfl, h4⟩
+  case clear => exact ⟨rfl, rfl, rfl, total_cons_congr h4 _⟩
+  case stopB | dropB | discardB | overwriteB =>
+    cases ab
+    · exact ⟨rfl, rfl, rfl, h4⟩
+    · exact ⟨rfl, rfl, rfl, total_cons_congr h4 _⟩
+  case stopO k | dropO k | discardO k | overwriteO k =>
+    cases ao k
+    · exact ⟨rfl, rfl, rfl, h4⟩
+    · exact ⟨rfl, rfl, rfl, total_cons_congr h4 _⟩
+
+theorem SpecEq.run {a b : Spec} (h : SpecEq a b) (ops : List Op) : SpecEq (a.run ops) (b.run ops) := by
+  induction ops generalizing a b with
+  | nil => exact h
+  | cons op ops ih => exact ih (h.step op)
+
+/-- ends of a guard that only add (or drop) its own span: stop, drop, discard — not overwrite -/
+def Ev.additive : (Nat → Ev) → Prop := fun ev => ev = Ev.kept ∨ ev = Ev.discarded
+
+theorem total_swap (e1 e2 : Nat → Ev) (h1 : Ev.additive e1) (h2 : Ev.additive e2) (d1 d2 : Nat)
+    (es ys : List Ev) : total (ys ++ e1 d1 :: e2 d2 :: es) = total (ys ++ e2 d2 :: e1 d1 :: es) := by
+  induction ys with
+  | nil =>
+    rcases h1 with rfl | rfl <;> rcases h2 with rfl | rfl <;> simp [total] <;> omega
+  | cons y ys ih => cases y <;> simp [total, ih]
+
+theorem endO_swap (sp : Spec) (k j : Nat) (hkj : k ≠ j) (e1 e2 : Nat → Ev) (h1 : Ev.additive e1)
+    (h2 : Ev.additive e2) : SpecEq ((sp.endO k e1).endO j e2) ((sp.endO j e2).endO k e1) := by
+  have hjk : j ≠ k := fun h => hkj h.symm
+  cases hk : sp.oStart k <;> cases hj : sp.oStart j <;>
+    simp [Spec.endO, hk, hj, hkj, hjk, SpecEq]
+  refine ⟨?_, fun ys => total_swap e2 e1 h2 h1 _ _ _ ys⟩
+  funext x
+  by_cases hxk : x = k <;> by_cases hxj : x = j <;> simp [hxk, hxj]
+
+/-- the operations that finish the owned guard in slot `k` by adding (or dropping) its own span -/
+def Op.finishes (k : Nat) (op : Op) : Prop := op = .stopO k ∨ op = .dropO k ∨ op = .discardO k
+
+/-- **Finishing several owned guards without the clock moving in between — e.g. on different threads
+at once, each under the mutex — gives the same reports in either order**, now and after any further
+operations: stop/drop/discard of guards in different slots commute (overwrite does not: it resets). -/
+theorem c18_finish_order_irrelevant (pre post : List Op) (k j : Nat) (hkj : k ≠ j) (a b : Op)
+    (ha : a.finishes k) (hb : b.finishes j) (s1 s2 : Impl)
+    (h1 : Impl.init.run (pre ++ a :: b :: post) = some s1)
+    (h2 : Impl.init.run (pre ++ b :: a :: post) = some s2) : s1.close = s2.close := by
+  rw [c18_stopwatch_refines _ _ h1, c18_stopwatch_refines _ _ h2]
+  have key : SpecEq ((Spec.init.run pre).step a |>.step b) ((Spec.init.run pre).step b |>.step a) := by
+    rcases ha with rfl | rfl | rfl <;> rcases hb with rfl | rfl | rfl <;>
+      exact endO_swap _ k j hkj _ _ (by simp [Ev.additive]) (by simp [Ev.additive])
+  have := (key.run post).2.2.2 []
+  simpa [Spec.run, Spec.close] using this
+
 /-! ## the property theorems: timer -/
 
 theorem timer_run_stopped (ops : List TOp) (s : TState) (d : Nat) (h : s.timer.duration = some d) :
@@ -581,6 +653,15 @@ example :
 example : (Impl.init.run [.startO 0, .dropO 0]).map Impl.close = some (some 0) ∧
     (Impl.init.run [.startO 0, .advance 9, .dropO 0, .clear]).map Impl.close = some none := by decide
 
+/-- two live owned guards finished in either order: both accepted, same report (8 = 5 + 3);
+with `overwrite` the order matters (8 vs 5) — it is excluded from `c18_finish_order_irrelevant` -/
+example :
+    (Impl.init.run [.startO 0, .advance 2, .startO 1, .advance 3, .dropO 0, .stopO 1]).map Impl.close = some (some 8) ∧
+    (Impl.init.run [.startO 0, .advance 2, .startO 1, .advance 3, .stopO 1, .dropO 0]).map Impl.close = some (some 8) ∧
+    (Impl.init.run [.startO 0, .advance 2, .startO 1, .advance 3, .dropO 1, .overwriteO 0]).map Impl.close = some (some 5) ∧
+    (Impl.init.run [.startO 0, .advance 2, .startO 1, .advance 3, .overwriteO 0, .dropO 1]).map Impl.close = some (some 8) := by
+  decide
+
 /-- inexpressible: a second `start` while a `TimerGuard` is live -/
 example : (Impl.init.run [.startB, .startB]).isNone = true := by decide
 
@@ -599,6 +680,7 @@ end Timers
 #print axioms Timers.c18_stop_returns_span
 #print axioms Timers.c18_single_cell
 #print axioms Timers.c18_expressible
+#print axioms Timers.c18_finish_order_irrelevant
 #print axioms Timers.c18_timer
 #print axioms Timers.c18_timer_stop_idempotent
 #print axioms Timers.c18_timestamp
